@@ -102,7 +102,8 @@ Inductive op :=
 | OWriteChunk (origin data : list Z)
 | OReadChunk (origin : list Z)
 | OReopen
-| OCache (n : Z).
+| OCache (n : Z)
+| OHRead (reqs : list (Z * Z * Z)).
 
 Inductive out :=
 | RFail
@@ -124,6 +125,38 @@ Definition nbit_proj (w : Z) (signed : bool) (start_bit bit_len : Z) (sign_ext f
   let r := highbits * 2 ^ (start_bit + 1) + field * 2 ^ lo + lowfill in
   if signed && (2 ^ (w - 1) <=? r) then r - 2 ^ w else r.
 
+(** Byte-stream level access to the dataset's data element through several access ids opened at the same time
+    (Hstartread ... Hseek/Hread, interleaved): every access id has its OWN position, starting at element 0.
+    A request (a, p, n): access id [a] seeks to element [p] (p < 0: no seek, continue where this id stands) and reads
+    [n] elements of the row-major stream.  The result is the concatenation of all reads; it depends on the array
+    only, never on what another access id did in between. *)
+Fixpoint pos_get (ps : list Z) (a : nat) : Z :=
+  match ps, a with
+  | [], _ => 0
+  | p :: _, O => p
+  | _ :: r, S k => pos_get r k
+  end.
+Fixpoint pos_set (ps : list Z) (a : nat) (v : Z) : list Z :=
+  match ps, a with
+  | [], _ => []
+  | _ :: r, O => v :: r
+  | p :: r, S k => p :: pos_set r k v
+  end.
+
+Fixpoint hread_run (arr : list Z) (ps : list Z) (reqs : list (Z * Z * Z)) : option (list Z) :=
+  match reqs with
+  | [] => Some []
+  | (a, p, n) :: r =>
+      let ai := Z.to_nat a in
+      let start := if p <? 0 then pos_get ps ai else p in
+      if (0 <=? a) && (a <? Z.of_nat (length ps)) && (0 <=? n) && (start + n <=? Z.of_nat (length arr)) then
+        match hread_run arr (pos_set ps ai (start + n)) r with
+        | Some rest => Some (map (fun k => arr_get arr (start + k)) (zseq n) ++ rest)
+        | None => None
+        end
+      else None
+  end.
+
 (** [view] is the identity for every layout except n-bit, where it is the projection. *)
 Definition apply_view (view : Z -> Z) (o : out) : out :=
   match o with RData vs => RData (map view vs) | x => x end.
@@ -139,6 +172,7 @@ Definition spec_step (dims cdims cl : list Z) (a : list Z) (o : op) : list Z * o
   | OReadChunk og => match spec_readchunk cdims cl a og with Some vs => (a, RData vs) | None => (a, RFail) end
   | OReopen => (a, ROk)
   | OCache n => (a, if 1 <=? n then ROk else RFail)
+  | OHRead reqs => match hread_run a [0; 0; 0] reqs with Some vs => (a, RData vs) | None => (a, RFail) end
   end.
 
 Fixpoint spec_run (dims cdims cl : list Z) (a : list Z) (ops : list op) : list out :=
